@@ -11,7 +11,9 @@ var c03Chain = []string{".select(id)", ".select(value)", ".select(extension)", "
 	".where($this is String)", ".where(($this is String).not())", ".where($this is Integer)", ".where($this is HumanName)", ".where($this is Boolean)",
 	".select($this).where($this is Integer)", ".exclude(%W.first())", ".children()", ".descendants()", ".repeat($this)", ".single()", ".idf()", ".trace('x')", "[0]", "[1]", ".y()", ".skip(2)", ".tail().tail()"}
 
-var c03Tail = []string{" & 'x'", " & %W", "", "", ".count()", " = %W", ".supersetOf(%W)", ".subsetOf(%W)", ".toString()", ".exists()", ".empty()", ".combine(%W).count()", ".isDistinct()", ".allTrue()", ".select($this & 'z')", ".where($this = %W)"}
+var c03Tail = []string{" & 'x'", " & %W", "", "", ".count()", " = %W", ".supersetOf(%W)", ".subsetOf(%W)", ".toString()", ".exists()", ".empty()", ".combine(%W).count()", ".isDistinct()", ".allTrue()", ".select($this & 'z')", ".where($this = %W)",
+	// the variable, or a window of it, as the operand of an operator (operands are converted to System values)
+	" + 1", " > 1", " < @2001-01-01", " * 2", " >= 'm'", ".take(1) + 1", ".take(1) < @2001-01-01T00:00:00Z", ".tail() > 1", ".skip(1) <= 5", ".take(1) - %W.take(1)", " = 1", " != 'x'", " ~ 'x'", ".tail() div 2", ".take(1) > %W"}
 
 // varProgram builds a program that slices, filters and concatenates environment collections
 // (the shapes through which an evaluation could write into the caller's backing arrays).
